@@ -363,10 +363,7 @@ type env struct {
 	nils int // nil elements met: coded for the library or decoded from what the library delivered
 }
 
-const (
-	layoutSpare = 0 // every source slice is a window with spare capacity
-	layoutExact = 3 // every source slice has len = cap (the layout of a slice literal)
-)
+const layoutSpare = 0 // every source slice is a window with spare capacity (3: every one has len = cap, as a slice literal)
 
 func (v *env) log(f string, a ...int) { v.calls = append(v.calls, call{F: f, A: item(a)}) }
 
@@ -653,11 +650,6 @@ func recovered(r any) string {
 	return fmt.Sprint(r)
 }
 
-// observe: element type int, every source slice with len = cap.
-func observe(kind string, e *Expr, limit int) observation {
-	return observeT(intCodec(), layoutExact, kind, e, limit)
-}
-
 func observeT[T any](c codec[T], mode int, kind string, e *Expr, limit int) (o observation) {
 	v := &env{mode: mode}
 	b := bld[T]{v: v, c: c}
@@ -725,11 +717,6 @@ type forEachObs struct {
 }
 
 type tooMany struct{}
-
-// forEach: element type int, every source slice with len = cap.
-func forEach(kind string, e *Expr, k, limit int) forEachObs {
-	return forEachT(intCodec(), layoutExact, kind, e, k, limit)
-}
 
 func forEachT[T any](c codec[T], mode int, kind string, e *Expr, k, limit int) (o forEachObs) {
 	v := &env{mode: mode}
